@@ -116,6 +116,7 @@ var c15 = gen.Register(&gen.Check[caseC15]{
 	},
 	Required: []string{"layout:dst-spare-capacity", "layout:shared", "returns-slice", "hash", "decoder", "pointer-arg"},
 	Run: func(c caseC15, o *gen.Obs) error {
+		hostileCaller() // (incl. the probe of functions the tree added to the API: their byte-slice and pointer arguments are caller memory too)
 		p, err := pt.Build(c.P)
 		if err != nil {
 			o.Class("skipped:builder-error")
